@@ -58,6 +58,10 @@ THEOREMS = {
         "Shroud.Names.program_c_names_distinct",
         "Shroud.Names.program_c_names_distinct'",
         "Shroud.Names.generic_interface_members",
+        "Shroud.Names.expand_f_names_nodup",
+        "Shroud.Names.generic_members_distinct",
+        "Shroud.Names.type_bound_generic_members_distinct",
+        "Shroud.Names.interface_members_distinct",
         "Shroud.Names.c_name_predictable",
         "Shroud.Names.f_names_predictable",
     ]
@@ -360,6 +364,43 @@ def scope_programs(thorough, r):
                        containers=[dict(path=p, fns=[mkfn(a), mkfn(b, nparams=2), mkfn("other")])])
 
 
+def class_programs(thorough, r):
+    """2-4 classes in one Fortran module (library level or inside a namespace) that share method names,
+    overloaded / with default arguments / with fortran_generic in some classes and single in others, in every
+    order of the classes; type-bound generics are per class."""
+    kinds = {
+        "two": lambda n: [mkfn(n), mkfn(n)],
+        "one": lambda n: [mkfn(n)],
+        "dflt": lambda n: [mkfn(n, nparams=2, ndefaults=1)],
+        "gen": lambda n: [mkfn(n, nparams=2, generics=[None, "_dbl"])],
+        "three": lambda n: [mkfn(n), mkfn(n, nparams=2), mkfn(n, nparams=3, ndefaults=1)],
+        "none": lambda n: [],
+    }
+    cls = ["Circle", "Square", "Label", "Path"]
+    combos = []
+    for k in (2, 3, 4):
+        for ks in itertools.product(["two", "one", "dflt", "gen", "none"], repeat=k):
+            if "none" in ks[:1] or all(x in ("one", "none") for x in ks):
+                continue
+            combos.append(ks)
+    if not thorough:
+        combos = [c for c in combos if len(c) <= 3] + r.sample([c for c in combos if len(c) == 4], 40)
+    for idx, ks in enumerate(combos):
+        base = [[], [("ns", "geo")], [("nsf", "geo")]][idx % 3]
+        conts = []
+        for ci, kd in enumerate(ks):
+            other = ["two", "one", "three"][(ci + idx) % 3]
+            fns = kinds[kd]("scale") + kinds[other]("move")
+            if (ci + idx) % 2:
+                fns = fns[::-1]
+            if (idx + ci) % 4 == 0:
+                fns = [mkfn("ctor", nparams=0, isCtor=True), mkfn("ctor", nparams=1, isCtor=True)] + fns
+            conts.append(dict(path=base + [("cls", cls[ci])], fns=fns))
+        if idx % 5 == 0:
+            conts.append(dict(path=base, fns=[mkfn("scale"), mkfn("scale", nparams=2)]))
+        yield dict(library="shapes", wrap=(True, True, False, False), cprefix=None, containers=conts)
+
+
 def batch_programs(progs, size=20):
     """Put the single-scope programs of a list side by side as namespaces b0..b<n> of one library (the
     per-library start-up cost of Shroud dominates the run time).  Every 10th program is kept as it is."""
@@ -497,13 +538,20 @@ def entries_of(fns):
     return out
 
 
+TYPE_DOC = []   # filled by documented_names: (derived type, {"generic": [(key, bindings)], "proc": [(binding, impl)]})
+
+
 def documented_names(prog):
     """All names the documented templates give: C entry points, Fortran specifics per module and the generic
     interfaces (key -> members) per module.  Overload numbers count the non-template entry points of a name."""
     w = prog["wrap"]
     cnames, fspec, generics = [], {}, {}
+    del TYPE_DOC[:]
     for c in prog["containers"]:
         cprefix, cscope, fscope, module, cls = scope_info(prog, c["path"])
+        tdoc = {"generic": [], "proc": []}
+        if cls is not None:
+            TYPE_DOC.append((cls.lower(), tdoc))
         groups = {}
         for fn in c["fns"]:
             groups.setdefault(fn["name"], []).append(fn)
@@ -530,6 +578,12 @@ def documented_names(prog):
                     generics.setdefault(module, {})[(fscope + u).lower()] = sorted(members)
             elif fns[0]["isCtor"]:
                 generics.setdefault(module, {})[cls.lower()] = sorted(members)
+            else:
+                # type-bound: bindings are F_name_function (no scope), `generic ::` only for several bindings
+                binds = [m[len(fscope):] for m in members]
+                tdoc["proc"].extend((b, m) for b, m in zip(binds, members))
+                if len(binds) > 1:
+                    tdoc["generic"].append((u.lower(), tuple(sorted(binds))))
     return cnames, fspec, generics
 
 
@@ -603,17 +657,44 @@ def c_definitions(text, prefix=None):
     return out
 
 
+TYPES_OUT = {}   # filled by fortran_entities: derived type -> {"generic": [(key, [bindings])], "proc": [(binding, impl)]}
+
+
+def fortran_types(text):
+    TYPES_OUT.clear()
+    fortran_entities(text)
+    return {k: {"generic": list(v["generic"]), "proc": list(v["proc"])} for k, v in TYPES_OUT.items()}
+
+
 def fortran_entities(text):
     """(module procedures after `contains`, bind(C) interface bodies, generic interfaces name -> members),
     lower-cased."""
     text = re.sub(r"&\n\s*", "", text)
     procs, binds, ifaces, dup_if = [], [], {}, []
     cur_iface = None
+    cur_type = None
     in_contains = False
     for ln in text.split("\n"):
         s = ln.strip()
-        low = s.lower()
+        low = s.lower().replace("\t", "")
         if low.startswith("!") or low.startswith("#"):
+            continue
+        m = re.match(r"^type(?:\s*,\s*[\w\(\) ]+)*\s*(?:::)?\s*(\w+)$", low)
+        if m and not in_contains and not low.startswith("type("):
+            cur_type = m.group(1)
+            TYPES_OUT.setdefault(cur_type, {"generic": [], "proc": []})
+            continue
+        if cur_type is not None:
+            if low.startswith("end type"):
+                cur_type = None
+                continue
+            m = re.match(r"^generic\s*::\s*(\w+)\s*=>\s*(.*)$", low)
+            if m:
+                TYPES_OUT[cur_type]["generic"].append((m.group(1), [x.strip() for x in m.group(2).split(",")]))
+                continue
+            m = re.match(r"^procedure(?:\s*,\s*\w+)*\s*::\s*(\w+)\s*=>\s*(\w+)$", low)
+            if m:
+                TYPES_OUT[cur_type]["proc"].append((m.group(1), m.group(2)))
             continue
         if low == "contains":
             in_contains = True
@@ -751,40 +832,63 @@ def oracle_full(ctx, prog, tag):
         if got != exp:
             failed |= bool(ctx.fail("%s:generic-interfaces" % tag, "generic interfaces differ from the documented ones: generated only %s, documented only %s"
                                     % ([g for g in got if g not in exp], [e for e in exp if e not in got]), replay))
+        # type-bound generics: per class exactly the bindings of that class's C++ name, each once
+        tgot = []
+        for fn_, data in files.items():
+            if fn_.endswith(".f"):
+                for tname, v in fortran_types(data.decode()).items():
+                    tgot.append((tname, sorted((k, tuple(sorted(m))) for k, m in v["generic"]), sorted(v["proc"])))
+        doc_types = {t for t, _ in TYPE_DOC}
+        tg = sorted((t, g) for t, g, _ in tgot if t in doc_types)
+        te = sorted((t, sorted(v["generic"])) for t, v in TYPE_DOC)
+        if tg != te:
+            failed |= bool(ctx.fail("%s:type-bound-generics" % tag, "type-bound generics differ from the documented ones: generated only %s, documented only %s"
+                                    % ([x for x in tg if x not in te], [x for x in te if x not in tg]), replay))
+        for t, v in TYPE_DOC:
+            have = [p for tt, _, procs in tgot if tt == t for p in procs]
+            miss = [p for p in v["proc"] if p not in have]
+            if miss:
+                failed |= bool(ctx.fail("%s:type-bound-procedures" % tag, "derived type %s lacks the documented bindings %s" % (t, miss), replay))
         w = "".join("1" if b else "0" for b in prog["wrap"])
         lib = common.enc(prog["library"]) if prog.get("cprefix") is None else "P" + common.enc(prog["cprefix"])
-        reqs = ["gi %s %s %s" % (w, lib, enc_container(c)) for c in prog["containers"]
-                if not (c["path"] and c["path"][-1][0] == "cls")]
-        classkeys = {c["path"][-1][1].lower() for c in prog["containers"] if c["path"] and c["path"][-1][0] == "cls"}
-        GI_REQS.append((prog, reqs, [g for g in got if g[0] not in classkeys]))
+        reqs = [("gi %s %s %s" % (w, lib, enc_container(c)),
+                 c["path"][-1][1].lower() if (c["path"] and c["path"][-1][0] == "cls") else None) for c in prog["containers"]]
+        GI_REQS.append((prog, reqs, got, sorted((t, k, m) for t, g in tg for k, m in g)))
         return failed
     finally:
         common.rmtree(d)
 
 
 def gi_correspondence(ctx, drv):
-    """Tie: the model's generic-interface table (driver op `gi`) vs the interfaces parsed from the generated
-    Fortran, for the programs the oracle generated."""
+    """Tie: the model's generic tables (driver op `gi`: module-level interfaces and type-bound generics per
+    class) vs the interfaces / `generic ::` lines parsed from the generated Fortran, for the programs the oracle
+    generated."""
     bad = []
-    lines = [q for _, reqs, _ in GI_REQS for q in reqs]
+    lines = [q for _, reqs, _, _ in GI_REQS for q, _ in reqs]
     if not lines:
         return
     res = iter(drv.run(lines))
-    for prog, reqs, got in GI_REQS:
-        model = []
-        for _ in reqs:
+    ntb = 0
+    for prog, reqs, got, tgot in GI_REQS:
+        model, tmodel = [], []
+        for _, cls in reqs:
             t = next(res)
             if t == "~":
                 continue
             for ent in t.split(";"):
-                k, force, mem = ent.split("=")
-                members = [common.dec(x).lower() for x in mem.split("+")]
+                kind, k, force, mem = ent.split("=")
+                members = tuple(sorted(common.dec(x).lower() for x in mem.split("+")))
                 if force == "1" or len(members) > 1:
-                    model.append((common.dec(k).lower(), tuple(sorted(members))))
+                    if kind == "M":
+                        model.append((common.dec(k).lower(), members))
+                    else:
+                        tmodel.append((cls, common.dec(k).lower(), members))
         ctx.count(1)
-        if sorted(model) != got:
-            bad.append({"prog": prog, "model": sorted(model), "impl": got})
+        ntb += len(tmodel)
+        if sorted(model) != got or sorted(tmodel) != tgot:
+            bad.append({"prog": prog, "model": [sorted(model), sorted(tmodel)], "impl": [got, tgot]})
     ctx.note("generic_tables_compared", len(GI_REQS))
+    ctx.note("type_bound_generics_compared", ntb)
     if bad:
         ctx.tie_broken("generic-table-correspondence", bad[:3])
 
@@ -882,7 +986,8 @@ def distribution(progs):
     dist = {"programs": len(progs), "containers": 0, "functions": 0, "flattened_namespace": 0, "depth>=2": 0, "depth>=3": 0,
             "class_in_namespace": 0, "same_name_in_two_scopes": 0, "explicit_C_prefix": 0, "with_defaults": 0,
             "with_template": 0, "with_generics": 0, "with_bufferify": 0, "with_ctor": 0, "overload_sets>=2": 0,
-            "explicit_suffix": 0}
+            "explicit_suffix": 0, "modules_with>=2_classes": 0, "method_name_shared_by_classes": 0,
+            "shared_method_overloaded_in_some_single_in_others": 0}
     for p in progs:
         dist["containers"] += len(p["containers"])
         if p.get("cprefix") is not None:
@@ -909,6 +1014,21 @@ def distribution(progs):
             for n in seen:
                 names.setdefault(n, set()).add(tuple(path))
         dist["same_name_in_two_scopes"] += any(len(v) > 1 for v in names.values())
+        mods = {}
+        for c in p["containers"]:
+            if c["path"] and c["path"][-1][0] == "cls":
+                cnt = {}
+                for f in c["fns"]:
+                    if not f["isCtor"]:
+                        cnt[f["name"]] = cnt.get(f["name"], 0) + 1 + f["ndefaults"] + max(0, len(f["generics"]) - 1)
+                mods.setdefault(scope_info(p, c["path"])[3], []).append(cnt)
+        for lst in mods.values():
+            if len(lst) >= 2:
+                dist["modules_with>=2_classes"] += 1
+                shared = {n for i, a in enumerate(lst) for n in a for b in lst[i + 1:] if n in b}
+                dist["method_name_shared_by_classes"] += bool(shared)
+                dist["shared_method_overloaded_in_some_single_in_others"] += any(
+                    {min(1, a[n] - 1) for a in lst if n in a} == {0, 1} for n in shared)
     return {k: int(v) for k, v in dist.items()}
 
 
@@ -986,10 +1106,11 @@ def run(ctx):
                 progs.append(normalize(json.loads(ln)))
     ncorpus = len(progs)
     progs.extend(scope_programs(thorough, r))
+    progs.extend(class_programs(thorough, r))
     nscope = len(progs) - ncorpus
     progs.extend(exhaustive_programs(thorough, r))
     nexh = len(progs) - ncorpus - nscope
-    nrand = 5000 if thorough else 700
+    nrand = 5000 if thorough else 550
     for _ in range(nrand):
         progs.append(random_program(r))
     ctx.note("distribution", distribution(progs))
